@@ -216,8 +216,9 @@ def run(ctx: Ctx):
                     scope_nodes.append(hf.node)
             ok2 = any(isinstance(n, ast.If) and re.fullmatch(r"(not )?isinstance\(\w+, atoms\.Comment\)", norm(n.test)) for sn in scope_nodes for n in ast.walk(sn))
             ctx.check(ok and ok2, "R17.b", key, "comments inside a block are passed on, not treated as atoms", f"the transformer does not pass Comment items of an expressions block on unchanged ({_avt.show(tv)[:120]}): they would be treated as assignments", tex.where())
-    asg = G.shape("assignment")
-    ctx.check(asg.replace(" ", "") == '?assignment:VARIABLE"="expression[' + cname + '][NEWLINE]', "R17.b", "src/gotranx/ode.lark::assignment", asg, f"assignment rule is `{asg}`", "src/gotranx/ode.lark")
+    aname = G.assignment_rule_name()
+    asg = G.shape(aname)
+    ctx.check(asg.replace(" ", "") == '?' + aname + ':VARIABLE"="expression[' + cname + '][NEWLINE]', "R17.b", "src/gotranx/ode.lark::assignment", asg, f"assignment rule is `{asg}`", "src/gotranx/ode.lark")
 
     # ---- R17.c who may read annotations ----------------------------------------------------------------
     check_raw_text(ctx, "R17.b")
@@ -282,7 +283,7 @@ def check_block_items(ctx: Ctx, rule: str, G, cname: str):
         body = G.expand_inlined(txt[txt.rfind('")"') + 3:].strip())
         while body.startswith("(") and body.endswith(")") and body.count("(") == body.count(")") and not body.endswith(")+"):
             body = body[1:-1].strip()
-        okb = all(x in body for x in ("assignment", cname, "NEWLINE")) and body.endswith(")+")
+        okb = all(x in body for x in (G.assignment_rule_name(), cname, "NEWLINE")) and body.endswith(")+")
         tag = re.findall(r'"(expressions|component)"', head.match(txt).group(0))[0]
         ctx.check(okb, rule, f'src/gotranx/ode.lark::expressions::"{tag}"::block-items', f"block items: {body}", f"inside a `{tag}(...)` block only `{body}` is accepted: a comment line or a blank line between two assignments ends the block and the remaining assignments silently move to the unnamed component (or the model no longer loads)", "src/gotranx/ode.lark")
 
